@@ -540,6 +540,27 @@ var c55big = func() string {
 	return string(b)
 }()
 
+var c55sizedCache = map[[2]int]string{}
+
+// c55sizedContent is the content of a sized record: exactly n bytes; a STDOUT record of >= 64
+// bytes begins with a complete CGI header block, everything else is a newline-free pattern.
+func c55sizedContent(typ uint8, n int) string {
+	key := [2]int{int(typ), n}
+	if s, ok := c55sizedCache[key]; ok {
+		return s
+	}
+	b := make([]byte, n)
+	for i := range b {
+		b[i] = byte('A' + (i*13+i/509+int(typ))%26)
+	}
+	if typ == FCGIStdout && n >= 64 {
+		copy(b, "Status: 202 Accepted\r\nX-Sized: yes\r\n\r\n")
+	}
+	s := string(b)
+	c55sizedCache[key] = s
+	return s
+}
+
 func c55alphabet(thorough bool) []c55sym {
 	a := []c55sym{
 		{"O:hdrs", FCGIStdout, "Status: 404 Not Found\r\nContent-Type: text/plain\r\nX-A: 1\r\n\r\n", -1},
@@ -575,12 +596,14 @@ var c55termName = []string{"END", "END+more", "EOF", "CUT"}
 // c55script renders a record sequence. retype=true turns every STDERR record into STDOUT (used
 // only to classify a mismatch, never to judge). Returns the bytes, S (STDOUT contents that count)
 // and whether a non-empty STDERR record precedes the terminator.
-func c55script(alpha []c55sym, seq []int, term int, retype bool) (raw []byte, S []byte, hasErr bool) {
+// An END_REQUEST symbol inside the sequence (family RS) ends the reply: later records are on the
+// wire but count for nothing (ended=true).
+func c55script(alpha []c55sym, seq []int, term int, retype bool) (raw []byte, S []byte, hasErr bool, ended bool) {
 	for _, i := range seq {
 		s := alpha[i]
 		typ := s.typ
 		if typ == FCGIStderr {
-			if len(s.content) > 0 {
+			if len(s.content) > 0 && !ended {
 				hasErr = true
 			}
 			if retype {
@@ -588,8 +611,11 @@ func c55script(alpha []c55sym, seq []int, term int, retype bool) (raw []byte, S 
 			}
 		}
 		raw = append(raw, c55encRec(typ, 1, []byte(s.content), s.pad)...)
-		if typ == FCGIStdout {
+		if typ == FCGIStdout && !ended {
 			S = append(S, s.content...)
+		}
+		if typ == FCGIEndRequest {
+			ended = true
 		}
 	}
 	endBody := []byte{0, 0, 0, 0, 0, 0, 0, 0}
@@ -766,9 +792,23 @@ func c55readResp(raw []byte, frag int) (x c55resp, panicked bool, pv string) {
 
 type c55cfg struct{ frag, rd int }
 
-func c55runScript(r *vk.Run, id string, alpha []c55sym, seq []int, term int, l1 []c55cfg, l2 []int) {
-	raw, S, hasErr := c55script(alpha, seq, term, false)
-	complete := term == c55termEnd || term == c55termEndTrail
+// c55opt: cut >= 0 delivers only the first cut bytes of the reply (conn EOF inside a record);
+// lenient marks a reply the statement is silent about (e.g. END_REQUEST with a body that is not 8
+// bytes): then only "no crash" and "nothing but STDOUT bytes" are demanded.
+type c55opt struct {
+	cut     int
+	lenient bool
+}
+
+var c55noOpt = c55opt{cut: -1}
+
+func c55runScript(r *vk.Run, id string, alpha []c55sym, seq []int, term int, l1 []c55cfg, l2 []int, opt c55opt) {
+	raw, S, hasErr, ended := c55script(alpha, seq, term, false)
+	complete := (term == c55termEnd || term == c55termEndTrail || ended) && !opt.lenient
+	if opt.cut >= 0 && opt.cut < len(raw) {
+		raw = raw[:opt.cut]
+		complete = false
+	}
 	input := "no-stderr"
 	if hasErr {
 		input = "stderr-record"
@@ -778,10 +818,16 @@ func c55runScript(r *vk.Run, id string, alpha []c55sym, seq []int, term int, l1 
 		names[i] = alpha[s].name
 	}
 	desc := strings.Join(names, " ") + " " + c55termName[term]
+	if opt.cut >= 0 {
+		desc += fmt.Sprintf(" (conn closed after %d bytes)", opt.cut)
+	}
 	var rawRetyped []byte
 	retyped := func() []byte {
 		if rawRetyped == nil {
-			rawRetyped, _, _ = c55script(alpha, seq, term, true)
+			rawRetyped, _, _, _ = c55script(alpha, seq, term, true)
+			if opt.cut >= 0 && opt.cut < len(rawRetyped) {
+				rawRetyped = rawRetyped[:opt.cut]
+			}
 		}
 		return rawRetyped
 	}
@@ -1219,7 +1265,7 @@ func TestVerifC55(t *testing.T) {
 						cl1 = []c55cfg{{0, 4096}, {5, 1000}, {0, 3}}
 						cl2 = []int{0, 4093}
 					}
-					c55runScript(r, id, alpha, seq, term, cl1, cl2)
+					c55runScript(r, id, alpha, seq, term, cl1, cl2, c55noOpt)
 					nOut := 0
 					for _, s := range seq {
 						if alpha[s].typ == FCGIStdout && len(alpha[s].content) > 0 {
@@ -1251,5 +1297,104 @@ func TestVerifC55(t *testing.T) {
 		}
 		walk(0)
 		mark(fam.tag)
+	}
+	// ---- RS: responder record sizes at the 16-bit / 8-bit field boundaries.
+	// One sized record X(type, contentLength, paddingLength) for type in {STDOUT, STDERR,
+	// END_REQUEST}, placed after nothing or after a STDOUT header block and followed by a small
+	// STDOUT record; ended by END_REQUEST, END_REQUEST+more, conn EOF, or the conn closing right
+	// after X's header / inside X's content / inside X's padding; x conn fragments {whole, 1, 8,
+	// 1000 bytes per Read} x read sizes. A sized STDOUT record of >= 64 bytes starts with a CGI
+	// header block itself, so the response is judged also when the big record comes first.
+	// Thorough adds every ordered pair of sized STDOUT/STDERR records.
+	rsCL := []int{0, 1, 7, 8, 65528, 65529, 65534, 65535}
+	rsPL := []int{0, 1, 7, 255}
+	rsTypes := []uint8{FCGIStdout, FCGIStderr, FCGIEndRequest}
+	r.Set("RS.contentLengths", rsCL)
+	r.Set("RS.paddingLengths", rsPL)
+	rsL1 := []c55cfg{{0, 4096}, {1, 4096}, {8, 1}, {1000, 3}}
+	rsL2 := []int{0, 1, 8, 1000}
+	hdrsSym := c55alphabet(false)[0]
+	tailSym := c55sym{"O:tail", FCGIStdout, "tail-after-sized-record", -1}
+	rsSym := func(typ uint8, cl, pl int) c55sym {
+		tn := map[uint8]string{FCGIStdout: "O", FCGIStderr: "E", FCGIEndRequest: "END"}[typ]
+		return c55sym{fmt.Sprintf("%s:sized(%d+%d)", tn, cl, pl), typ, c55sizedContent(typ, cl), pl}
+	}
+	for _, typ := range rsTypes {
+		for _, cl := range rsCL {
+			for _, pl := range rsPL {
+				if !mine() {
+					continue
+				}
+				x := rsSym(typ, cl, pl)
+				alphaRS := []c55sym{hdrsSym, x, tailSym}
+				lenient := typ == FCGIEndRequest && cl != 8
+				for pre := 0; pre < 2; pre++ {
+					seqRS := []int{1, 2}
+					xOff := 0
+					if pre == 1 {
+						seqRS = []int{0, 1, 2}
+						xOff = len(c55encRec(hdrsSym.typ, 1, []byte(hdrsSym.content), hdrsSym.pad))
+					}
+					type ending struct {
+						name string
+						term int
+						cut  int
+					}
+					ends := []ending{{"END", c55termEnd, -1}, {"END+more", c55termEndTrail, -1}, {"EOF", c55termEOF, -1},
+						{"cut-after-header", c55termEOF, xOff + 8}}
+					if cl > 0 {
+						ends = append(ends, ending{"cut-in-content", c55termEOF, xOff + 8 + (cl+1)/2})
+					}
+					if pl > 0 {
+						ends = append(ends, ending{"cut-in-padding", c55termEOF, xOff + 8 + cl + pl/2})
+					}
+					for _, e := range ends {
+						id := vk.Key("RS", typ, cl, pl, pre, e.name)
+						if !r.Case(id) {
+							continue
+						}
+						c55runScript(r, id, alphaRS, seqRS, e.term, rsL1, rsL2, c55opt{cut: e.cut, lenient: lenient})
+						if cl+pl > 255 {
+							r.Nontrivial(id)
+						}
+					}
+				}
+			}
+		}
+	}
+	mark("RS")
+	if r.Thorough() {
+		type sz struct {
+			typ    uint8
+			cl, pl int
+		}
+		var shapes []sz
+		for _, typ := range []uint8{FCGIStdout, FCGIStderr} {
+			for _, cl := range []int{0, 1, 8, 65528, 65529, 65535} {
+				for _, pl := range rsPL {
+					shapes = append(shapes, sz{typ, cl, pl})
+				}
+			}
+		}
+		for _, a := range shapes {
+			for _, b := range shapes {
+				if expired("RS2") {
+					break
+				}
+				if !mine() {
+					continue
+				}
+				alphaRS := []c55sym{hdrsSym, rsSym(a.typ, a.cl, a.pl), rsSym(b.typ, b.cl, b.pl), tailSym}
+				for _, term := range []int{c55termEnd, c55termCut} {
+					id := vk.Key("RS2", a.typ, a.cl, a.pl, b.typ, b.cl, b.pl, c55termName[term])
+					if !r.Case(id) {
+						continue
+					}
+					c55runScript(r, id, alphaRS, []int{0, 1, 2, 3}, term, []c55cfg{{0, 4096}, {8, 1}, {1000, 3}}, []int{0, 1000}, c55noOpt)
+					r.Nontrivial(id)
+				}
+			}
+		}
+		mark("RS2")
 	}
 }
